@@ -47,6 +47,7 @@ func (s *State) clone() *State {
 }
 
 type loopInfo struct {
+	Allow      map[string][]allowedLoc
 	L          *Loop
 	EntryPhi   map[*ssa.Phi]Val // merged entering values
 	HavocState *State
@@ -190,8 +191,15 @@ func (g *Gen) oblige(st *State, kind, suffix, clause string, pos token.Pos, goal
 	g.counters[ck] = n + 1
 	name += fmt.Sprintf(".%d", n)
 	name += suffix
-	o := &Obligation{Name: name, Kind: kind, Fn: g.Key, Clause: clause, Pos: g.pos(pos), NDefs: len(g.Defs), Reach: st.Reach, Goal: goal, Gen: g}
-	g.Obls = append(g.Obls, o)
+	parts := splitGoal(goal)
+	for j, p := range parts {
+		nm := name
+		if len(parts) > 1 {
+			nm = fmt.Sprintf("%s/%d", name, j)
+		}
+		o := &Obligation{Name: nm, Kind: kind, Fn: g.Key, Clause: clause, Pos: g.pos(pos), NDefs: len(g.Defs), Reach: st.Reach, Goal: p, Gen: g}
+		g.Obls = append(g.Obls, o)
+	}
 	// a checked assertion is an assumption for what follows
 	g.assumeAt(st, goal)
 }
@@ -674,6 +682,9 @@ func (g *Gen) initState() *State {
 }
 
 func (g *Gen) resultNames() []string {
+	if g.C != nil && len(g.C.Results) > 0 {
+		return resultNamesOf(g.Fn.Signature, g.C)
+	}
 	res := g.Fn.Signature.Results()
 	var names []string
 	for i := 0; i < res.Len(); i++ {
@@ -980,12 +991,32 @@ func (g *Gen) loopHead(b *ssa.BasicBlock, l *Loop, st *State, fwd []*ssa.BasicBl
 			locals[a] = true
 		}
 	}
+	var loopAllow map[string][]allowedLoc
+	if g.C != nil && g.C.LoopMod[l.Ordinal] != nil && g.pass > 1 && !g.C.LoopMod[l.Ordinal].Star {
+		scm := g.specCtx(st, g.entry, func(name string) (Val, bool) {
+			for phi, v := range li.EntryPhi {
+				if phi.Comment == name {
+					return v, true
+				}
+			}
+			return Val{}, false
+		})
+		scm.loopHeader = b
+		loopAllow = g.allowSets(g.C.LoopMod[l.Ordinal].Mods, scm, fmt.Sprintf("loop %d modifies", l.Ordinal))
+		li.Allow = loopAllow
+	}
 	for _, n := range g.uniOrder {
 		if star || comps[n] {
 			if strings.HasPrefix(n, "G:!") {
 				continue
 			}
-			hs.Heap[n] = Const(fmt.Sprintf("%s!H:%s@loop%d", g.prefix, n, l.Ordinal), g.universe[n])
+			hv := Const(fmt.Sprintf("%s!H:%s@loop%d", g.prefix, n, l.Ordinal), g.universe[n])
+			if loopAllow != nil && !strings.HasPrefix(n, "I:") {
+				// the loop's modifies clause: everything else keeps its pre-loop value
+				// (checked at each back edge)
+				g.assume(g.unchangedOutside(n, hv, st.Heap[n], st.Clk, loopAllow[n], false))
+			}
+			hs.Heap[n] = hv
 		}
 	}
 	var las []*ssa.Alloc
@@ -1073,6 +1104,22 @@ func (g *Gen) backEdge(from, header *ssa.BasicBlock, st *State) {
 			continue
 		}
 		g.oblige(bst, "inv-preserved", fmt.Sprintf("@loop%d", li.L.Ordinal), cl.Text, header.Instrs[0].Pos(), t)
+	}
+	if li.Allow != nil {
+		comps, _, star := g.loopWrites(li.L)
+		for _, n := range g.uniOrder {
+			if !(star || comps[n]) || strings.HasPrefix(n, "I:") || strings.HasPrefix(n, "G:!") {
+				continue
+			}
+			cur, head := bst.Heap[n], li.HavocState.Heap[n]
+			if cur == nil || head == nil || cur == head {
+				continue
+			}
+			goal := g.unchangedOutside(n, cur, head, li.HavocState.Clk, li.Allow[n], true)
+			if !goal.IsTrue() {
+				g.oblige(bst, "loop-frame", fmt.Sprintf("@loop%d", li.L.Ordinal), "loop modifies: "+n+" unchanged outside the loop's modifies clause", header.Instrs[0].Pos(), goal)
+			}
+		}
 	}
 	if g.C != nil {
 		if dec := g.C.LoopDec[li.L.Ordinal]; dec != nil {
